@@ -105,6 +105,48 @@ pub fn install(history: &SharedHistory, config: &Config, set: &MSet) -> bool {
     res
 }
 
+/// As `install`, for data sets that may contain ASPAs: those are pushed through a real
+/// `ValidationReport` publication point (`config.enable_aspa` must be on), origins and router
+/// keys stay SLURM assertions.
+pub fn install_full(kit: &crate::fmtx::Kit, history: &SharedHistory, config: &Config, set: &MSet) -> bool {
+    let aspas: Vec<MAspa> = set.aspas.iter().map(|(c, p)| MAspa { customer: *c, providers: p.clone() }).collect();
+    let (report, metrics) = kit.report_with_aspas(config, &aspas);
+    let mut rest = set.clone();
+    rest.aspas.clear();
+    let res = history.update(report, &exceptions_for(&rest), metrics);
+    history.mark_update_done();
+    res
+}
+
+/// Histories as `history_strategy`, where every data set additionally carries, for each of two
+/// customer ASNs, no ASPA or one of four provider sets — so the same customer's ASPA is
+/// announced, updated and withdrawn repeatedly along a history.
+pub fn history_strategy_aspa(min: usize, max: usize, universe: usize, same_pct: u32) -> impl Strategy<Value = Vec<MSet>> {
+    (
+        prop::collection::vec(slurm_item_strategy(), 1..=universe),
+        prop::collection::vec((0u32..100, prop::collection::vec(any::<bool>(), universe), 0u8..5, prop_oneof![3 => Just(0u8), 2 => 0u8..5]), min..=max),
+    )
+        .prop_map(move |(uni, steps)| {
+            const PROVIDERS: [&[u32]; 4] = [&[64510], &[64510, 64511], &[64511, 64512], &[65000]];
+            let mut res: Vec<MSet> = Vec::with_capacity(steps.len());
+            for (roll, mask, a0, a1) in steps {
+                if roll < same_pct && !res.is_empty() {
+                    let last = res.last().unwrap().clone();
+                    res.push(last);
+                } else {
+                    let mut set = MSet::from_items(uni.iter().zip(mask.iter()).filter(|(_, m)| **m).map(|(i, _)| i.clone()));
+                    for (customer, sel) in [(64496u32, a0), (64497u32, a1)] {
+                        if sel > 0 {
+                            set.aspas.insert(customer, PROVIDERS[sel as usize - 1].to_vec());
+                        }
+                    }
+                    res.push(set);
+                }
+            }
+            res
+        })
+}
+
 pub fn served_set(history: &SharedHistory) -> Option<Result<MSet, String>> {
     history.read().current().map(|s| MSet::from_snapshot(&s))
 }
